@@ -123,6 +123,12 @@ def Rd.points (r : Rd) (arity : Nat) : List (List Float) × Assoc × Rd :=
   let ev := groups.flatMap fun g => (List.range arity).map fun i => (g.getD (2 * i) 0.0, g.getD (2 * i + 1) 0.0)
   (pts, ev, r)
 
+/-- does the generated class table say that BeamCXPEC.evaluate guards temperature and density as well? -/
+def guardTD : Bool :=
+  match Cherab.Gen.OpenAdasPolicy.rateClasses.find? (·.name == "BeamCXPEC") with
+  | some c => c.guarded.contains "temperature" && c.guarded.contains "density"
+  | none => false
+
 def wlOpt (photon : Bool) (wl : Float) : Option Float := if photon then some wl else none
 
 def runRate (ts : List String) : String :=
@@ -184,7 +190,7 @@ def runRate (ts : List String) : String :=
       let E := mkExt k1 ev
       let c : CXTable Float := ⟨eb, ti, ni, z, b, qeb, qti, qni, qz, qb, qref⟩
       " ".intercalate (pts.map fun p =>
-        showOut (beamCX E cf wl ex c (p.getD 0 0.0) (p.getD 1 0.0) (p.getD 2 0.0) (p.getD 3 0.0) (p.getD 4 0.0)))
+        showOut (beamCXGuarded guardTD E cf wl ex c (p.getD 0 0.0) (p.getD 1 0.0) (p.getD 2 0.0) (p.getD 3 0.0) (p.getD 4 0.0)))
 
 /-- `pol <accessor> <null> <fallback> <nsp> {param sym elemSym iso}* <nstored> {<len> sym*}* <nwl> sym*` -/
 def runPolicy (ts : List String) : String :=
@@ -227,8 +233,17 @@ def runWavelength (ts : List String) : String :=
   | some none => "raises:RuntimeError"
   | some (some sym) => "ok:" ++ sym
 
+/-- what the generated table says deviates from the uniform policy / the complete guard (tie between T and S) -/
+def deviants : String :=
+  let pol := (Cherab.Gen.OpenAdasPolicy.accessors.filter fun a =>
+    !Policy.Uniform Cherab.Gen.OpenAdasPolicy.nullSigs a).map (·.name)
+  let grd := (Cherab.Gen.OpenAdasPolicy.rateClasses.filter fun c =>
+    !c.isNull && !(c.evalParams.all fun p => !isDTE p || c.guarded.contains p)).map (·.name)
+  "policy:" ++ ",".intercalate pol ++ " guards:" ++ ",".intercalate grd
+
 def step (ts : List String) : String :=
   match ts with
+  | ["deviants"] => deviants
   | "rate" :: rest => runRate rest
   | "wl" :: rest => runWavelength rest
   | "pol" :: rest => runPolicy rest
